@@ -51,9 +51,7 @@ fn run_case(c: &Case) -> Verdict {
     let rt = paused_rt();
     let pan0 = panic_count();
     let mut v = rt.block_on(async { run_async(c).await });
-    if let Some(p) = panics_since(pan0).first() {
-        v.fail(format!("{ID}/task/panicked"), p.clone());
-    }
+    attribute_task_panics(&mut v, ID, pan0);
     v
 }
 
